@@ -93,10 +93,11 @@ def _guard_to_z3(test: ast.AST, var: str, x):
         return None if p is None else z3.Not(p)
     if isinstance(test, ast.Compare) and len(test.ops) == 1 and isinstance(test.comparators[0], ast.Name) and test.comparators[0].id == var:
         lit = _const_str(test.left)
+        # substring tests as regular-language membership: keeps the whole query inside the regex fragment
         if lit is not None and isinstance(test.ops[0], ast.In):
-            return z3.Contains(x, z3.StringVal(lit))
+            return z3.InRe(x, z3.Concat(R.ANYSTAR, z3.Re(lit), R.ANYSTAR))
         if lit is not None and isinstance(test.ops[0], ast.NotIn):
-            return z3.Not(z3.Contains(x, z3.StringVal(lit)))
+            return z3.Not(z3.InRe(x, z3.Concat(R.ANYSTAR, z3.Re(lit), R.ANYSTAR)))
     if isinstance(test, ast.Compare) and len(test.ops) == 1 and isinstance(test.left, ast.Name) and test.left.id == var and isinstance(test.ops[0], (ast.Eq, ast.NotEq)):
         lit = _const_str(test.comparators[0])
         if lit is not None:
@@ -140,20 +141,26 @@ def early_exits(fn: ast.FunctionDef, var: str, ps: list[Pass]):
                     out.append((s.lineno, "untranslatable", None))
                     continue
                 later = [p for p in ps if p.line > s.lineno]
-                langs = []
-                for p in later:
+                verdicts = []
+                witness = None
+                for p in later:  # one query per later pass (a disjunction of all languages is much harder for z3)
                     try:
-                        langs.append(z3.InRe(x, R.search_lang(p.pattern, p.flags)))
+                        lang = R.search_lang(p.pattern, p.flags)
                     except R.Unsupported:
-                        pass
-                sol = z3.Solver()
-                sol.set("timeout", 30000)
-                sol.add(*terms)
-                sol.add(z3.Or(*langs) if langs else z3.BoolVal(False))
-                r = str(sol.check())
-                if r == "sat":
-                    out.append((s.lineno, "skips", R.z3str_to_py(sol.model().eval(x, model_completion=True).as_string())))
-                elif r == "unsat":
+                        verdicts.append("unknown")
+                        continue
+                    sol = z3.Solver()
+                    sol.set("timeout", 30000)
+                    sol.add(*terms)
+                    sol.add(z3.InRe(x, lang))
+                    r = str(sol.check())
+                    verdicts.append(r)
+                    if r == "sat":
+                        witness = R.z3str_to_py(sol.model().eval(x, model_completion=True).as_string())
+                        break
+                if witness is not None:
+                    out.append((s.lineno, "skips", witness))
+                elif all(v == "unsat" for v in verdicts):
                     out.append((s.lineno, "ok", None))
                 else:
                     out.append((s.lineno, "untranslatable", None))
